@@ -127,6 +127,7 @@ func tcw(runs, chunk, budget, perRun int) tierCfg {
 
 var props = map[string]propCfg{
 	"C01": {Quick: tc(4000, 100, 60), Thorough: tc(300000, 300, 1200)},
+	"C02": {Quick: tcw(6000, 100, 60, 8), Thorough: tcw(500000, 300, 1500, 8)},
 	"C03": {Quick: tc(2000, 100, 45), Thorough: tc(150000, 250, 900)},
 	"C17": {Quick: tc(1500, 50, 60), Thorough: tc(60000, 100, 900)},
 	"C18": {Quick: tcw(30000, 500, 45, 6), Thorough: tcw(400000, 500, 900, 6)},
